@@ -54,7 +54,7 @@ func (s *FuzzyTable) GetMatchId(val string) (match string, isNew bool) {
 		s.searches = 0
 	}
 
-	if len(s.keys) < s.maxSize || s.keys[len(s.keys)-1].score < 1 {
+	if len(s.keys) < s.maxSize || (len(s.keys) > 0 && s.keys[len(s.keys)-1].score < 1) {
 		newItem := fuzzyItem{
 			original: val,
 			score:    1,
